@@ -20,7 +20,7 @@ func init() {
 	fw.Register(&fw.Property{
 		ID:    "C14",
 		Level: "exploration",
-		Rule: "cases = batches of (name, type, write list) tuples on 3 peers with different identities. Names: ASCII, unicode (NFC/NFD pairs, RTL, emoji), spaces, nested a/b/c, empty, '.', '..', 'a/../b', 'a//b', trailing slash, leading slash, 200 characters, CID-looking, '/orbitdb/...'-looking, percent and control characters, plus PRNG compositions of these pieces; x 3 registered types x write lists {none (creator default), [a], [a,b], [b,a], [a,b,c], wildcard}. Per tuple: the address computed by every peer; per batch: a collision map over all tuples; on a sample: Create, Open on another peer, second Create with/without Overwrite (also with a non-default CreateDBOptions.Directory), LocalOnly open of an unknown database, and Open on a fresh peer while the k-th block it needs (k=1..3: database manifest, controller manifest, write list) does not arrive before the deadline. " +
+		Rule: "cases = batches of (name, type, write list) tuples on 3 peers with different identities. Names: ASCII, unicode (NFC/NFD pairs, RTL, emoji), spaces, nested a/b/c, empty, '.', '..', 'a/../b', 'a//b', trailing slash, leading slash, 200 characters, CID-looking, '/orbitdb/...'-looking, percent and control characters, plus PRNG compositions of these pieces; x 3 registered types x write lists {none (creator default), [a], [a,b], [b,a], [a,b,c], wildcard}. Per tuple: the address computed by every peer; per batch: a collision map over all tuples; on a sample: Create, Open on another peer, second Create with/without Overwrite (also with a non-default CreateDBOptions.Directory), LocalOnly open of an unknown database, DetermineAddress/Create from ONE parameters value reused for up to 8 databases with its write list changed in between, and Open on a fresh peer while the k-th block it needs (k=1..3: database manifest, controller manifest, write list) does not arrive before the deadline. " +
 			"distinct = tuple (name, type, list); non-trivial = the name was accepted by Create/DetermineAddress on every peer (refused names must be refused identically on every peer and are counted separately)",
 		Assumptions: []string{"the write list as given (order included) is part of the inputs", "blocks of the creating peer are fetchable by the opening peer"},
 		Cases:       c14Cases,
@@ -287,6 +287,60 @@ func c14Run(c fw.Case) fw.Verdict {
 		_ = so.Close()
 		_ = s3.Close()
 		cancel()
+	}
+	// ---- one access-controller parameters VALUE reused for several databases, its write list changed in
+	// between: the address is a function of the inputs, not of what the value was used for before ----
+	{
+		shared := writeAC(ids[2])
+		reused := 0
+		var last created
+		for _, ct := range acceptedTuples {
+			l := listOf(ct.t.list)
+			if l == nil {
+				continue
+			}
+			if reused >= 8 {
+				break
+			}
+			shared.SetAccess("write", l)
+			ctx, cancel := context.WithTimeout(bg, 20*time.Second)
+			a, err := peers[0].DB.DetermineAddress(ctx, ct.t.name, ct.t.typ, &iface.DetermineAddressOptions{AccessController: shared})
+			cancel()
+			key := fmt.Sprintf("%q/%s/%s", ct.t.name, ct.t.typ, ct.t.list)
+			if err != nil {
+				return fw.Verdict{Status: fw.Violated, Key: "reused-parameters/address-refused", NonTrivial: true, What: fmt.Sprintf("input %s is accepted with fresh parameters but refused with a parameters value used before: %v", key, err)}
+			}
+			if a.String() != ct.addr {
+				return fw.Verdict{Status: fw.Violated, Key: "reused-parameters/address-not-deterministic", NonTrivial: true,
+					What: fmt.Sprintf("input %s: every peer computes %s from fresh parameters, but %s when the parameters value was used for another database before (use %d)", key, ct.addr, a, reused+1)}
+			}
+			reused++
+			last = ct
+		}
+		if reused > 0 {
+			// and the database created from the reused value has the list given at creation
+			l := listOf(last.t.list)
+			shared.SetAccess("write", l)
+			ctx, cancel := context.WithTimeout(bg, 30*time.Second)
+			s, err := peers[0].DB.Create(ctx, "reused-"+last.t.name, last.t.typ, &iface.CreateDBOptions{AccessController: shared})
+			if err == nil {
+				so, err := peers[1].DB.Open(ctx, s.Address().String(), &iface.CreateDBOptions{})
+				if err == nil {
+					got, _ := so.AccessController().GetAuthorizedByRole("write")
+					g2, w2 := append([]string{}, got...), append([]string{}, l...)
+					sort.Strings(g2)
+					sort.Strings(w2)
+					_ = so.Close()
+					if !eqStrings(g2, w2) {
+						cancel()
+						return fw.Verdict{Status: fw.Violated, Key: "reused-parameters/open-wrong-write-list", NonTrivial: true, What: fmt.Sprintf("database created with write list %v from a reused parameters value reports %v when opened on another peer", l, got)}
+					}
+				}
+				_ = s.Close()
+			}
+			cancel()
+		}
+		v.Count("reused_parameter_value_checks", int64(reused))
 	}
 	// ---- Create with a non-default local directory: the overwrite rule must hold there too ----
 	if len(acceptedTuples) > 0 {
